@@ -32,6 +32,7 @@ CONSTANTS Menu = "%(menu)s"
  MaxPipe = %(maxpipe)d
  Feats = %(feats)s
  Overlap = %(overlap)s
+ FullPrefs = %(fullprefs)s
 INVARIANT SingleOK
 INVARIANT PipeOK
 """
@@ -494,6 +495,14 @@ def describe(batch, rec):
     }
     if "ing" in rec:
         out["problem_ingredients"] = rec["ing"]
+    if rec["cks"]:
+        kind = lambda ids: [batch.ft[i - 1] for i in ids]
+        rows = [(e, ck, fs, o) for (e, ck, fs), o in batch.rk.items() if ck in rec["cks"] and set(fs) <= set(rec["f"]) | set(range(1, len(batch.universe) + 1))]
+        out["resulting_problem_kind_rows"] = [
+            {"engine": name(e), "compilation_kind": ck, "in": kind(sorted(fs)), "out": kind(o["f"]) if o["k"] == "kind" else "raises " + o["x"]}
+            for e, ck, fs, o in sorted(rows, key=lambda t: (t[0], t[1], sorted(t[2])))
+            if all(i <= len(batch.universe) for i in fs)
+        ][:40]
     return out
 
 
@@ -583,14 +592,14 @@ def design_check(ctx):
     d = ctx.sub("t1")
     if ctx.quick:
         cfgs = [
-            dict(menu="all", three="FALSE", maxpipe=1, feats='{"f"}', overlap="TRUE"),
-            dict(menu="comp", three="FALSE", maxpipe=2, feats='{"f"}', overlap="FALSE"),
+            dict(menu="all", three="FALSE", maxpipe=1, feats='{"f"}', overlap="TRUE", fullprefs="TRUE"),
+            dict(menu="comp", three="FALSE", maxpipe=2, feats='{"f"}', overlap="FALSE", fullprefs="TRUE"),
         ]
     else:
         cfgs = [
-            dict(menu="all", three="FALSE", maxpipe=1, feats='{"f", "g"}', overlap="FALSE"),
-            dict(menu="comp", three="FALSE", maxpipe=3, feats='{"f", "g"}', overlap="FALSE"),
-            dict(menu="comp", three="TRUE", maxpipe=2, feats='{"f"}', overlap="FALSE"),
+            dict(menu="all", three="FALSE", maxpipe=1, feats='{"f", "g"}', overlap="TRUE", fullprefs="TRUE"),
+            dict(menu="comp", three="FALSE", maxpipe=3, feats='{"f", "g"}', overlap="FALSE", fullprefs="TRUE"),
+            dict(menu="comp", three="TRUE", maxpipe=2, feats='{"f"}', overlap="FALSE", fullprefs="FALSE"),
         ]
     for c in cfgs:
         res = tlc.run_tlc("MCFactory", MC_CFG % c, d, timeout=3000, coverage=True)
@@ -730,3 +739,65 @@ def run(ctx):
         "candidates are the engines of the preference list (an engine registered but not listed is never selected, as documented)",
         "selection by name / names (Parallel) is outside the property",
     ]
+
+
+def selftest(ctx):
+    """./check C32 --selftest : the judge rejects corrupted observations of the unchanged tree
+    (the source mutations tried by hand are listed in notes/C32.md)."""
+    import copy
+
+    bnd = bounds(ctx)
+    univ, reqs, probs, cfgs = enumerate_cases(ctx, bnd)
+    b = Batch(ctx, 0, univ["universe"], [])
+    p = b.install("default")
+    for r in reqs:
+        if r["grp"] == 0:
+            b.kind_request(r, p)
+    clean = copy.deepcopy(b.reqs)
+
+    def first(pred):
+        return next(i for i, r in enumerate(clean) if pred(r))
+
+    plans = []
+    i = first(lambda r: r["obs"]["k"] == "engine")
+    plans.append((i, "obs", {"k": "engine", "n": [clean[i]["obs"]["n"][0] % len(b.names) + 1], "st": [], "x": ""}, "another engine than the one returned"))
+    i = first(lambda r: r["obs"]["k"] == "engine" and r["mode"] == "plan_validator")
+    plans.append((i, "obs", {"k": "exc", "n": [], "st": [], "x": NO_SUITABLE}, "no-suitable-engine error instead of the engine"))
+    i = first(lambda r: r["call"] == "mode" and r["obs"]["k"] == "exc" and r["obs"]["x"] == NO_SUITABLE and r["mode"] == "compiler")
+    plans.append((i, "obs", {"k": "engine", "n": [b.eid["up_grounder"]], "st": [], "x": ""}, "an engine instead of the no-suitable-engine error"))
+    i = first(lambda r: r["obs"]["k"] == "pipeline" and len(r["obs"]["st"]) == 2 and r["obs"]["st"][0] != r["obs"]["st"][1])
+    plans.append((i, "obs", {"k": "pipeline", "n": [], "st": clean[i]["obs"]["st"][::-1], "x": ""}, "pipeline stages swapped"))
+    i = first(lambda r: r["all"]["k"] == "names" and len(r["all"]["n"]) >= 1)
+    plans.append((i, "all", {"k": "names", "n": clean[i]["all"]["n"][1:], "x": ""}, "get_all_applicable_engines loses an engine"))
+    ok = True
+    for i, field, val, what in plans:
+        b.reqs = copy.deepcopy(clean)
+        b.reqs[i][field] = val
+        sub = Ctx_like(ctx)
+        judge(sub, "selftest%d" % i, [b], stats_all=False)
+        hit = [v for v in sub.violations if v.data["request"] == describe(b, b.reqs[i])]
+        print("selftest corrupt (%s): %s" % (what, "rejected: " + hit[0].sig if hit else "NOT REJECTED"))
+        ok = ok and bool(hit)
+    b.reqs = clean
+    return 0 if ok else 1
+
+
+class Ctx_like:
+    """collects violations of one judge run without touching the evidence of the outer context"""
+
+    def __init__(self, ctx):
+        self._ctx = ctx
+        self.violations = []
+        self.cov = {"states": 0, "transitions": 0, "traces_validated_against_impl": 0, "tlc_runs": []}
+        self.quick = ctx.quick
+
+    def sub(self, name):
+        return self._ctx.sub(name)
+
+    def add_tlc(self, label, res):
+        pass
+
+    def violation(self, sig, what, data):
+        from ..common import Violation
+
+        self.violations.append(Violation(sig, what, data))
